@@ -2508,6 +2508,30 @@ def queue_unbounded_rule(A, fl, rule):
                 key='%s-create-queue-passthrough' % name, detail=v.describe(), behaviour=beh)
 
 
+def driver_queue_rule(A, rule):
+    """The tornado handler hands frames (and the close marker, with put_nowait) to the engine
+    through a queue of its own: it is unbounded, so that the close marker can always be
+    queued."""
+    mi = A.model.modules.get('async_drivers.tornado')
+    if mi is None:
+        raise AnalysisError('%s: tornado driver vanished' % rule)
+    n = 0
+    for node in ast.walk(mi.tree):
+        if isinstance(node, ast.Assign) and any(
+                isinstance(t, ast.Attribute) and t.attr == 'receive_queue' for t in node.targets):
+            n += 1
+            v = node.value
+            A.check(isinstance(v, ast.Call) and not v.args and not v.keywords and
+                    txt(v.func) in ('asyncio.Queue', 'Queue'), rule + '.driver-queue',
+                    'tornado driver: the receive queue is unbounded (on_close() queues the close '
+                    'marker with put_nowait)', 'src/engineio/async_drivers/tornado.py:%d'
+                    % node.lineno, key='tornado-receive-queue', detail=ast.unparse(node),
+                    behaviour='with a backlog the close marker is dropped (QueueFull): the '
+                              'session learns of the closed transport only by ping timeout, '
+                              'with the wrong reason')
+    A.floor(rule, 'tornado receive queue constructions', n, 1)
+
+
 def last_ping_writers_rule(A, fl, rule):
     """WHO-MAY write last_ping: the constructor (None) and _send_ping (None while waiting,
     then the send time).  Anything else that clears it disarms the deadline."""
@@ -3013,8 +3037,10 @@ def driver_environ_rule(A, rule):
                 q = vals.get('QUERY_STRING')
                 if q is not None:
                     qt = txt(q)
-                    A.check('query' in qt or qt == "''", rule + '.driver-environ',
-                            '%s: QUERY_STRING is the query string (empty text when absent)' % mod,
+                    A.check(('query' in qt or qt == "''") and 'unquote' not in qt and
+                            'parse_qs' not in qt, rule + '.driver-environ',
+                            '%s: QUERY_STRING is the raw (still percent-encoded) query string, empty text when '
+                            'absent' % mod,
                             A.site(fi), key='driver-environ-query:%s' % mod, detail=qt,
                             behaviour=beh)
             keys |= {txt(e.target)[len("environ['"):-2] for e in v.ev if e.kind == 'write' and
